@@ -520,4 +520,10 @@ theorem len_typed_string_witness :
     Spec.declGo 0 none (.conv (.i .uint64) (.bin .shl (.un .neg (.int 1)) (.len (.conv .str (.str [97, 98]))))) = .reject := by
   decide
 
+/-- F03-22: `string(c)` of an untyped integer constant outside the int32 range keeps the low 32 bits of the code
+    point: `string(4294967296)` is "\x00" (Go: "\uFFFD") -/
+theorem string_codepoint_wrap_witness :
+    (evalY Expected.C03.facts { iota := 0 } none (.conv .str (.int 4294967296))).bind (fun n => .ok n.rv) = .ok (.r .str (.str [0])) ∧
+    Spec.evalGo 0 (.conv .str (.int 4294967296)) = .ok ⟨.str [0xEF, 0xBF, 0xBD], .t .str⟩ := by decide
+
 end YaegiVerif.Props.C03
